@@ -165,9 +165,9 @@ def _extract_flags(
     found_flags = set()
     remaining_attrs = []
     for attr in attrs:
-        # Flags are bare words like `only`. Lists / dicts are never flags (and they may be nested too deep
-        # to be serialized recursively).
-        if attr.value.type != "simple":
+        # Flags are bare words like `only`. A kwarg like `key=only` passes the variable `only`.
+        # Lists / dicts are never flags (and they may be nested too deep to be serialized recursively).
+        if attr.key is not None or attr.value.type != "simple":
             remaining_attrs.append(attr)
             continue
 
